@@ -7,7 +7,10 @@ CONSTANTS
   TK = {5,30,53,1074}
   HiMax = 53
   ZTS = 100
-  ZT <- MCZT
+  TD = {3,12,300}
+  HiDecMax = 12
+  ZTCode = {10000,20067,30115,40153,50186,300601,530821,10743847}
+  ZDCode = {30309,120703,3003705}
   Delivery = "by_prior"
   QNum = {0,9,11,12,13,15,24,112}
   QShift = 12
